@@ -94,7 +94,19 @@ flow:
           at: end
 `
 
-func quotaYAML(max int) string {
+func quotaYAML(max int, concurrent bool) string {
+	if concurrent {
+		return fmt.Sprintf(`quotas:
+  - id: Q
+    filter:
+      url: box.com/*
+    strategy:
+      concurrent:
+        max_request_count: %d
+        request_expiration_sec: 3600
+        gc_interval_sec: 3600
+`, max)
+	}
 	return fmt.Sprintf(`quotas:
   - id: Q
     filter:
@@ -107,19 +119,23 @@ func quotaYAML(max int) string {
 `, max)
 }
 
+var observerSink int64
+
 type Scenario struct {
-	Goroutines int `json:"goroutines"`
-	PerG       int `json:"requests_per_goroutine"`
-	Max        int `json:"quota_max"`
+	Goroutines int  `json:"goroutines"`
+	PerG       int  `json:"requests_per_goroutine"`
+	Max        int  `json:"quota_max"`
 	Reload     bool `json:"concurrent_engine_load"`
 	Metrics    bool `json:"concurrent_metrics_reader"`
 	Vacuum     bool `json:"vacuum_exercise"`
+	Concurrent bool `json:"concurrency_quota"` // quota strategy "concurrent" (in-flight bound) instead of a fixed window
 }
 
 type ChildResult struct {
-	Admitted int64 `json:"admitted"`
-	Refused  int64 `json:"refused"`
-	Errors   int64 `json:"errors"`
+	Admitted    int64 `json:"admitted"`
+	Refused     int64 `json:"refused"`
+	Errors      int64 `json:"errors"`
+	MaxInFlight int64 `json:"max_in_flight"`
 }
 
 func child() {
@@ -137,7 +153,7 @@ func child() {
 		os.MkdirAll(d, 0o755)
 	}
 	os.WriteFile(filepath.Join(flows, "rl.yaml"), []byte(flowYAML), 0o644)
-	os.WriteFile(filepath.Join(quotas, "q.yaml"), []byte(quotaYAML(sc.Max)), 0o644)
+	os.WriteFile(filepath.Join(quotas, "q.yaml"), []byte(quotaYAML(sc.Max, sc.Concurrent)), 0o644)
 	environment.SetProcessorsDirectory(filepath.Join(repo, "proxy/src/services/lunar-engine/streams/processors/registry"))
 	environment.SetStreamsFlowsDirectory(flows)
 	environment.SetQuotasDirectory(quotas)
@@ -157,12 +173,16 @@ func child() {
 	stop := make(chan struct{})
 	if sc.Metrics {
 		go func() {
+			var sink int64
+			defer func() { atomic.AddInt64(&observerSink, sink) }()
 			for {
 				select {
 				case <-stop:
 					return
 				default:
-					_ = s.GetFlowInvocations()
+					for name, n := range s.GetFlowInvocations() { // an observer consumes what it reads
+						sink += int64(len(name)) + n
+					}
 					_ = s.GetActiveFlows()
 					_ = s.GetAvgFlowExecutionTime()
 					_ = s.GetAvgProcessorExecutionTime()
@@ -207,44 +227,96 @@ func child() {
 					}
 				}(g)
 			}
+			for g := 0; g < 2; g++ { // transactions look the map up under the read lock
+				w2.Add(1)
+				go func(g int) {
+					defer w2.Done()
+					for i := 0; i < 2000; i++ {
+						mu.RLock()
+						_ = m[(i%4)*1000+i%200]
+						mu.RUnlock()
+						if i%100 == 0 {
+							time.Sleep(time.Millisecond)
+						}
+					}
+				}(g)
+			}
 			w2.Wait()
 			time.Sleep(20 * time.Millisecond)
 		}()
 	}
-	for g := 0; g < sc.Goroutines; g++ {
-		wg.Add(1)
-		go func(g int) {
-			defer wg.Done()
-			for i := 0; i < sc.PerG; i++ {
-				id := fmt.Sprintf("t-%d-%d", g, i)
-				req := lunar_messages.OnRequest{ID: id, SequenceID: id, Method: "GET", Scheme: "https",
-					URL: "box.com/files", Headers: map[string]string{}, Time: time.Now()}
-				as := stream_types.NewRequestAPIStream(req, shared)
-				acts := &stream_config.StreamActions{Request: &stream_config.RequestStream{}}
-				if err := s.ExecuteFlow(as, acts); err != nil {
-					atomic.AddInt64(&res.Errors, 1)
-					continue
-				}
-				early := false
-				for _, a := range acts.Request.Actions {
-					if a.IsEarlyReturnType() {
-						early = true
+	doReq := func(id string) (admitted bool) {
+		req := lunar_messages.OnRequest{ID: id, SequenceID: id, Method: "GET", Scheme: "https",
+			URL: "box.com/files", Headers: map[string]string{}, Time: time.Now()}
+		as := stream_types.NewRequestAPIStream(req, shared)
+		acts := &stream_config.StreamActions{Request: &stream_config.RequestStream{}}
+		if err := s.ExecuteFlow(as, acts); err != nil {
+			atomic.AddInt64(&res.Errors, 1)
+			return false
+		}
+		for _, a := range acts.Request.Actions {
+			if a.IsEarlyReturnType() {
+				atomic.AddInt64(&res.Refused, 1)
+				return false
+			}
+		}
+		atomic.AddInt64(&res.Admitted, 1)
+		return true
+	}
+	doResp := func(id string) {
+		resp := lunar_messages.OnResponse{ID: id, SequenceID: id, Method: "GET", URL: "box.com/files",
+			Status: 200, Headers: map[string]string{}, Time: time.Now()}
+		rs := stream_types.NewResponseAPIStream(resp, shared)
+		racts := &stream_config.StreamActions{Response: &stream_config.ResponseStream{}}
+		if err := s.ExecuteFlow(rs, racts); err != nil {
+			atomic.AddInt64(&res.Errors, 1)
+		}
+	}
+	if sc.Concurrent {
+		// rounds: all goroutines send their request at the same moment; nobody answers
+		// before the round is counted, so everything admitted in a round is in flight at once
+		for round := 0; round < sc.PerG; round++ {
+			var start, done sync.WaitGroup
+			start.Add(1)
+			var inRound int64
+			adm := make([]bool, sc.Goroutines)
+			for g := 0; g < sc.Goroutines; g++ {
+				done.Add(1)
+				go func(g int) {
+					defer done.Done()
+					start.Wait()
+					if doReq(fmt.Sprintf("t-%d-%d", g, round)) {
+						adm[g] = true
+						atomic.AddInt64(&inRound, 1)
 					}
-				}
-				if early {
-					atomic.AddInt64(&res.Refused, 1)
-					continue
-				}
-				atomic.AddInt64(&res.Admitted, 1)
-				resp := lunar_messages.OnResponse{ID: id, SequenceID: id, Method: "GET", URL: "box.com/files",
-					Status: 200, Headers: map[string]string{}, Time: time.Now()}
-				rs := stream_types.NewResponseAPIStream(resp, shared)
-				racts := &stream_config.StreamActions{Response: &stream_config.ResponseStream{}}
-				if err := s.ExecuteFlow(rs, racts); err != nil {
-					atomic.AddInt64(&res.Errors, 1)
+				}(g)
+			}
+			start.Done()
+			done.Wait()
+			if inRound > res.MaxInFlight {
+				res.MaxInFlight = inRound
+			}
+			for g := 0; g < sc.Goroutines; g++ {
+				if adm[g] {
+					done.Add(1)
+					go func(g int) { defer done.Done(); doResp(fmt.Sprintf("t-%d-%d", g, round)) }(g)
 				}
 			}
-		}(g)
+			done.Wait()
+		}
+	} else {
+		for g := 0; g < sc.Goroutines; g++ {
+			wg.Add(1)
+			go func(g int) {
+				defer wg.Done()
+				for i := 0; i < sc.PerG; i++ {
+					id := fmt.Sprintf("t-%d-%d", g, i)
+					if doReq(id) {
+						doResp(id)
+					}
+				}
+			}(g)
+		}
 	}
 	wg.Wait()
 	close(stop)
@@ -380,9 +452,10 @@ func staticPairs(path string) map[string]string {
 		return nil
 	}
 	var f struct {
-		Sites   []factSite          `json:"sites"`
-		Multi   []string            `json:"multi_roles"`
-		Dropped map[string]bool     `json:"dropped_fields"`
+		Sites   []factSite        `json:"sites"`
+		Multi   []string          `json:"multi_roles"`
+		Dropped map[string]bool   `json:"dropped_fields"`
+		Atomic  map[string]string `json:"atomic_report"`
 	}
 	if json.Unmarshal(raw, &f) != nil {
 		return nil
@@ -413,6 +486,11 @@ func staticPairs(path string) map[string]string {
 		return false
 	}
 	out := map[string]string{}
+	for fn, problem := range f.Atomic {
+		if problem != "" {
+			out["not-atomic:"+fn] = fn + " is modelled as one atomic step but " + problem
+		}
+	}
 	byField := map[string][]factSite{}
 	for _, s := range f.Sites {
 		if !f.Dropped[s.Field] {
@@ -421,6 +499,17 @@ func staticPairs(path string) map[string]string {
 	}
 	for field, ss := range byField {
 		for _, a := range ss {
+			if a.Write && !a.Atomic {
+				for _, l := range a.Locks {
+					excl := false
+					for _, m := range a.Locks {
+						excl = excl || m == strings.TrimSuffix(l, "#R")
+					}
+					if strings.HasSuffix(l, "#R") && !excl {
+						out["write-under-rlock:"+field] = fmt.Sprintf("%s %s:%d writes %s holding %s only in shared mode", a.Func, a.File, a.Line, field, l)
+					}
+				}
+			}
 			for _, b := range ss {
 				ka, kb := kind(a), kind(b)
 				if (ka == 0 && kb == 0) || (ka == 2 && kb == 2) || share(a, b) {
@@ -487,10 +576,14 @@ func main() {
 			{Goroutines: 8, PerG: 20, Max: 30, Metrics: true, Reload: true, Vacuum: true},
 			{Goroutines: 4, PerG: 25, Max: 7, Metrics: true},
 			{Goroutines: 2, PerG: 10, Max: 5},
+			{Goroutines: 8, PerG: 150, Max: 1, Concurrent: true},
+			{Goroutines: 12, PerG: 100, Max: 3, Concurrent: true, Metrics: true},
 		}
 		for i := 0; i < o.Scale(1, 12, 6); i++ {
 			scenarios = append(scenarios, Scenario{Goroutines: o.Rng.Range(2, 12), PerG: o.Rng.Range(5, 40),
 				Max: o.Rng.Range(1, 60), Metrics: o.Rng.Bool(), Reload: o.Rng.Bool(), Vacuum: o.Rng.Bool()})
+			scenarios = append(scenarios, Scenario{Goroutines: o.Rng.Range(4, 12), PerG: o.Rng.Range(100, 500),
+				Max: o.Rng.Range(1, 3), Concurrent: true})
 		}
 	}
 	// correspondence suite for the interference model: the real per-flow context manager
@@ -523,8 +616,12 @@ func main() {
 		}
 		sort.Strings(fields)
 		for _, f := range fields {
-			o.Count("static:race:" + f)
-			o.Hit(c.Hit{Suite: "translator", Index: 0, Signature: "race:" + f, Static: true,
+			sig := "race:" + f
+			if strings.HasPrefix(f, "not-atomic:") || strings.HasPrefix(f, "write-under-rlock:") {
+				sig = f
+			}
+			o.Count("static:" + sig)
+			o.Hit(c.Hit{Suite: "translator", Index: 0, Signature: sig, Static: true,
 				Demanded: "every two conflicting accesses that can run in different goroutines share a lock",
 				Observed: "unprotected pair in the source: " + sp[f], Case: map[string]any{"field": f, "pair": sp[f]}})
 		}
@@ -565,13 +662,23 @@ func main() {
 		if int64(total) < want {
 			want = int64(total)
 		}
-		if res.Admitted != want || res.Errors != 0 {
+		if sc.Concurrent {
+			// in-flight bound: at no instant more than max admitted transactions hold a slot
+			if res.MaxInFlight > int64(sc.Max) || res.Errors != 0 {
+				o.Hit(c.Hit{Suite: "stress", Index: i, Signature: "not-serializable:in-flight>max",
+					Demanded: fmt.Sprintf("at most %d transactions in flight at any instant (as in every serial order)", sc.Max),
+					Observed: fmt.Sprintf("max in flight=%d admitted=%d refused=%d errors=%d", res.MaxInFlight, res.Admitted, res.Refused, res.Errors), Case: sc})
+			}
+		} else if res.Admitted != want || res.Errors != 0 {
 			o.Hit(c.Hit{Suite: "stress", Index: i, Signature: "not-serializable:admitted-count",
 				Demanded: fmt.Sprintf("admitted = %d (as in every serial order), no errors", want),
 				Observed: fmt.Sprintf("admitted=%d refused=%d errors=%d", res.Admitted, res.Refused, res.Errors), Case: sc})
 		}
 		seen := map[string]bool{}
 		for _, r := range parseRaces(abs, repo) {
+			if r.A.File == "" && r.B.File == "" {
+				continue // no frame inside the repository: not about engine state
+			}
 			fa := sites[fmt.Sprintf("%s:%d", r.A.File, r.A.Line)]
 			fb := sites[fmt.Sprintf("%s:%d", r.B.File, r.B.Line)]
 			fields := common2(fa, fb)
